@@ -21,6 +21,23 @@ CACHE = os.path.join(ROOT, ".cache")
 EVID = os.path.join(ROOT, "evidence")
 REPO = "/repo"
 
+# Mutation self-tests only (never a registered command): VP_REPO=<scratch worktree> runs the same
+# check against another copy of the repository, with its own harness copy and target directory.
+if os.environ.get("VP_REPO") and os.path.realpath(os.environ["VP_REPO"]) != "/repo":
+    REPO = os.path.realpath(os.environ["VP_REPO"])
+    _h = hashlib.sha1(REPO.encode()).hexdigest()[:8]
+    _ALT = os.path.join(CACHE, "alt", _h)
+    os.makedirs(_ALT, exist_ok=True)
+    subprocess.run(["rsync", "-a", "--delete", "--exclude", "Cargo.lock", HARNESS + "/", _ALT + "/harness/"], check=True)
+    for _f in ("Cargo.toml", ".cargo/config.toml"):
+        _p = os.path.join(_ALT, "harness", _f)
+        _s = open(_p).read().replace("/repo/", REPO + "/").replace("/verif/target", os.path.join(_ALT, "target"))
+        open(_p, "w").write(_s)
+    HARNESS = os.path.join(_ALT, "harness")
+    TARGET = os.path.join(_ALT, "target")
+    CACHE = os.path.join(_ALT, "cache")
+    EVID = os.path.join(_ALT, "evidence")
+
 FORBIDDEN = re.compile(
     r"\b(Admitted|admit|Axiom|Axioms|Parameter|Parameters|Conjecture|Conjectures|Abort All|"
     r"Unset Guard Checking|Unset Positivity Checking|Unset Universe Checking|bypass_check|"
@@ -52,8 +69,9 @@ def run(cmd, cwd=None, timeout=None, env=None):
 
 class Lock:
     def __init__(self, name):
-        os.makedirs(CACHE, exist_ok=True)
-        self.path = os.path.join(CACHE, name + ".lock")
+        d = os.path.join(ROOT, ".cache")
+        os.makedirs(d, exist_ok=True)
+        self.path = os.path.join(d, name + ".lock")
 
     def __enter__(self):
         self.f = open(self.path, "w")
